@@ -34,7 +34,7 @@ INSTANCES = {
     "trailbs": ["ab\\", "x\\\\"],
     "jsonish": ['", "x": "', '"}, {"', "\\u0041", "</script>"],
 }
-BOUNDS = {"quick": dict(MaxFiles=2, MaxMeas=1, MaxSpecial=1, inst=1, shapes='{"top", "nested", "deep"}'), "thorough": dict(MaxFiles=3, MaxMeas=2, MaxSpecial=2, inst=3, shapes='{"top", "nested", "deep"}')}
+BOUNDS = {"quick": dict(MaxFiles=2, MaxMeas=1, MaxSpecial=1, inst=1, shapes='{"top", "nested", "deep"}'), "thorough": dict(MaxFiles=3, MaxMeas=1, MaxSpecial=1, inst=3, shapes='{"top", "nested", "deep"}')}
 
 
 def inst(cls, k):
